@@ -90,6 +90,12 @@ func runC11(c *Ctx) bool {
 			emit(&Case{Kind: "pre-cancelled", Opt: map[string]string{"op": op}, Seed: gen.New(c.Seed, 1105, uint64(idx)).Uint64()})
 			emit(&Case{Kind: "deadline", Opt: map[string]string{"op": op}, Seed: gen.New(c.Seed, 1106, uint64(idx)).Uint64()})
 		}
+		// (5b) plain successful calls in bursts: little for the leak monitor to see, but on the race
+		// build this is what gives the detector enough overlapping accesses between the caller's
+		// set-up code and the freshly started workers (parallel schedules only)
+		for _, op := range c11Ops {
+			emit(&Case{Kind: "burst", Opt: map[string]string{"op": op}, Seed: gen.New(c.Seed, 1108, uint64(idx)).Uint64()})
+		}
 		// (6) From-Root operations in massive mode
 		for _, op := range []string{"text", "json", "walk", "mkdir", "verify", "dryrun"} {
 			for _, k := range []string{"plain", "pre-cancelled", "cancel-at-hook", "fails"} {
@@ -557,6 +563,50 @@ func evalC11(c *Ctx, cs *Case, lm *mon.LeakMonitor) {
 			}
 			if c.WantSample(cs.Kind) && fired {
 				c.Sample(cs.Kind, map[string]any{"op": op, "cancel_at_event": K, "events": events, "err": errStr(e.err), "hook_trace_head": tr})
+			}
+		}
+
+	case cs.Kind == "burst":
+		runtime.GOMAXPROCS([]int{4, 16}[r.Intn(2)])
+		nRoots := 20
+		f, doc := c11Doc(r, nRoots, nil, "")
+		runs := c.Pick(60, 200)
+		var j *mon.Jail
+		if op == "verify" {
+			if j = newJail(f, true); j == nil {
+				return
+			}
+			defer j.Remove()
+		}
+		for i := 0; i < runs; i++ {
+			e := &c11Exec{op: op, doc: []byte(doc), ctx: context.Background(), cbFailAt: -1}
+			var mj *mon.Jail
+			if op == "mkdir" {
+				if mj = newJail(f, false); mj == nil {
+					return
+				}
+				e.target = mj.Target
+			} else if j != nil {
+				e.target = j.Target
+			}
+			cs.N = []int{i}
+			if i == 0 {
+				cs.SetDoc(doc)
+				c.Rejournal(cs)
+			}
+			e.run(lm)
+			c.Eval(key("burst"+strconv.Itoa(i)), i == 0)
+			c.Count("burst_calls", 1)
+			det := map[string]any{"doc": trunc(doc, 600), "run": i}
+			ok := c11Judge(c, cs, e, det)
+			if e.guard.Returned && e.err != nil {
+				c.Violation(cs, "burst.unexpected-error", op, det)
+			}
+			if mj != nil {
+				mj.Remove()
+			}
+			if !ok {
+				recycle()
 			}
 		}
 
